@@ -455,7 +455,7 @@ theorem wok_advance (todo : List WCall) : ∀ (w : World) (res : List Bool), WOK
   | cons c r ih =>
     intro w res h
     cases c with
-    | check fb =>
+    | check fb ne =>
       unfold advance
       split
       · exact ih _ _ h
@@ -475,7 +475,7 @@ theorem wok_startRoll (w : World) (t : WT) (hs : List Nat) (h : WOK w) : WOK (st
 theorem wok_afterCall (w : World) (t : WT) (k : Nat) (b won : Bool) (h : WOK w) : WOK (afterCall w t k b won).1 := by
   unfold afterCall
   cases t.phase with
-  | checking rest hooks fb =>
+  | checking rest hooks fb ne =>
     cases b with
     | false => simpa using wok_startRoll _ _ _ h
     | true =>
